@@ -522,7 +522,7 @@ pub fn c12_item(sh: &DerivedShared, k: u64, acc: &mut Acc, note: &dyn Fn(&str)) 
 pub fn run_c12(opt: &Options) -> i32 {
     let t0 = std::time::Instant::now();
     let (cases, per) = if opt.thorough() {
-        (opt.scaled(2_000_000), 12u64)
+        (opt.scaled(5_000_000), 12u64)
     } else {
         (opt.scaled(300_000), 4u64)
     };
